@@ -106,6 +106,10 @@ def parse_vspec(path):
                 if o.startswith("bytes="):
                     ent["bytes"] = o[len("bytes="):]
             spec["entries"].append(ent)
+        elif head == "bitflags":
+            # bitflags <src> <Name>: the `bitflags! { struct Name: u8 { const A = lit; .. } }` invocation (rule R20)
+            parts = rest.split()
+            spec["entries"].append({"type": "bitflags", "src": parts[0], "name": parts[1]})
         elif head == "impl":
             parts = rest.split()
             cur_impl = {"type": "impl", "src": parts[0], "name": parts[1], "trait": None, "fns": [], "extra": [],
@@ -727,6 +731,47 @@ class UnitGen:
                 em.raw("\n")
                 self.items.append({"kind": ent["kind"], "name": ent["name"], "file": src.rel,
                                    "lines": [src.line_of(a), src.line_of(b)],
+                                   "sha256": hashlib.sha256(src.bytes[a:b]).hexdigest()})
+            elif ent["type"] == "bitflags":
+                # R20: `bitflags! { struct N: u8 { const A = <literal>; ... } }` -> a plain `struct N { b: u8 }` whose associated
+                # constants carry the literals READ FROM THE MACRO BODY, with the methods of the bitflags API that the code under
+                # contract uses (empty, insert, contains, bits, from_bits_truncate) written out with their documented meaning
+                # and verified bodies. Everything else the macro generates (Debug, other set operations, iterators) is dropped.
+                hits = []
+                for it in src.index["items"]:
+                    if it["kind"] == "other":
+                        txt = src.text(*it["range"])
+                        m = re.match(r"(?s)\s*bitflags!\s*\{(.*)\}\s*$", txt)
+                        if m and re.search(r"\bstruct\s+" + re.escape(ent["name"]) + r"\s*:\s*u8\b", m.group(1)):
+                            hits.append((it, m.group(1)))
+                if len(hits) != 1:
+                    raise Undecided(f"bitflags {ent['name']} found {len(hits)} times in {src.rel}")
+                it, body = hits[0]
+                m = re.search(r"(?s)\bstruct\s+" + re.escape(ent["name"]) + r"\s*:\s*u8\s*\{(.*)\}", body)
+                inner = re.sub(r"//[^\n]*", "", m.group(1))
+                consts = re.findall(r"\bconst\s+([A-Z_][A-Z0-9_]*)\s*=\s*(0b[01_]+|0x[0-9a-fA-F_]+|[0-9_]+)\s*;", inner)
+                leftover = re.sub(r"\bconst\s+[A-Z_][A-Z0-9_]*\s*=\s*(0b[01_]+|0x[0-9a-fA-F_]+|[0-9_]+)\s*;", "", inner).strip()
+                if not consts or leftover:
+                    raise Undecided(f"bitflags {ent['name']}: R20 refused (body is not a list of `const NAME = literal;`: {leftover[:60]!r})")
+                allv = 0
+                for _, lit in consts:
+                    allv |= int(lit.replace("_", ""), 0)
+                a, b = it["range"]
+                N = ent["name"]
+                em.raw(f"// ---- bitflags {N} from {src.rel}:{src.line_of(a)} (rule R20)\n")
+                out = [f"#[derive(Clone, Copy)]\nstruct {N} {{ b: u8 }}\nimpl {N} {{"]
+                for cn, lit in consts:
+                    out.append(f"    const {cn}: {N} = {N} {{ b: {lit} }};")
+                out.append(f"    fn empty() -> (r: Self) ensures r.b == 0 {{ {N} {{ b: 0 }} }}")
+                out.append(f"    fn insert(&mut self, other: Self) ensures final(self).b == old(self).b | other.b {{ self.b = self.b | other.b; }}")
+                out.append(f"    fn contains(&self, other: Self) -> (r: bool) ensures r == (self.b & other.b == other.b) {{ self.b & other.b == other.b }}")
+                out.append(f"    fn bits(&self) -> (r: u8) ensures r == self.b {{ self.b }}")
+                out.append(f"    fn from_bits_truncate(bits: u8) -> (r: Self) ensures r.b == bits & {allv}u8 {{ {N} {{ b: bits & {allv}u8 }} }}")
+                out.append("}\n")
+                em.raw("\n".join(out), ("rw", "R20"))
+                self.rewrites.append({"rule": "R20", "what": f"bitflags! struct {N}: u8 with constants {', '.join(c + '=' + l for c, l in consts)} emitted as a plain struct with empty/insert/contains/bits/from_bits_truncate",
+                                      "file": src.rel, "line": src.line_of(a)})
+                self.items.append({"kind": "bitflags", "name": N, "file": src.rel, "lines": [src.line_of(a), src.line_of(b)],
                                    "sha256": hashlib.sha256(src.bytes[a:b]).hexdigest()})
             elif ent["type"] == "impl":
                 impls = src.find_impls(ent["name"], ent["trait"])
